@@ -45,7 +45,7 @@ def make_spec(rng):
         spec["kwargs"]["value_domains"] = copy.deepcopy(VD) if rng.random() < 0.6 else [copy.deepcopy(VD)]
         spec["script"] += 'VD_r <- DS_1[calc B_1 := Id_2 in VD_1];\n' if any(c["name"] == "Id_2" for c in w["structures"]["datasets"][0]["DataStructure"]) else ""
     if rng.random() < 0.15:
-        spec["kwargs"]["external_routines"] = copy.deepcopy(ROUTINE)
+        spec["kwargs"]["external_routines"] = copy.deepcopy(ROUTINE) if rng.random() < 0.5 else [copy.deepcopy(ROUTINE), {"name": "SQL_2", "query": "SELECT Id_1 FROM DS_1;"}]
     if rng.random() < 0.2:
         spec["kwargs"]["return_only_persistent"] = False
     if rng.random() < 0.15:
